@@ -1,0 +1,15 @@
+//go:build !verif
+
+package dicescript
+
+// No-op counterparts of the verification hooks (see verif_hooks.go); the
+// compiler inlines them away.
+
+const (
+	verifTickOp   = 0
+	verifTickRoll = 1
+)
+
+func verifTick(kind int) {}
+
+func verifJumpSeed(val any) any { return val }
